@@ -92,12 +92,14 @@ CHECKS["C12"] = {
                   "state (errno, set of derived-type cache keys, format flags/precision/fill/width of the shared output "
                   "stream); the search runs to the fixpoint of canonical states, so histories of every length over the "
                   "operation alphabet are covered; in every state every operation is executed and compared with its "
-                  "result in a pristine forked process.  A stateless enumeration of all histories up to length 2 "
+                  "result in a pristine forked process (states are expanded in a worker process that restores errno, "
+                  "stream format and type cache between operations; short histories and every 32nd state are "
+                  "re-expanded in a fresh fork and must agree).  A stateless enumeration of all histories up to length 2 "
                   "(thorough 3) validates the fingerprint, and real forks validate the in-process state restore.  "
                   "Load order: every permutation of the template lines x every permutation of the message lines is "
                   "loaded in its own process and must give identical dumps, lookups, decodes and encodes",
     "level_note": "hidden state outside the fingerprint would only hide behaviour (checked by the stateless pass), it cannot "
-                  "create an alarm; operations are 56 (thorough 62) representatives of the type families, not every "
+                  "create an alarm; operations are 57 (thorough 63) representatives of the type families, not every "
                   "type; load order uses 3x4 (thorough 4x6) mutually independent lines (distinct names and IDs, no "
                   "defaults, no conditions)",
     "technique": "explicit-state BFS over operation histories of the real codec with canonical state hashing to a fixpoint, plus exhaustive permutation of definition lines",
@@ -116,8 +118,8 @@ CHECKS["C12"] = {
     "runs": [{
         "harness": "c12_history", "sources": ["engines/codec/c12_history.cpp"], "variant": "plain", "libset": "core",
         "quick": {"parts": 16, "deadline": 100,
-                  "bounds": "56 operations to fixpoint; stateless length<=2; 3! x 4! load orders"},
+                  "bounds": "57 operations to fixpoint (4 992 states); stateless length<=2; 3! x 4! load orders"},
         "thorough": {"parts": 16, "deadline": 800,
-                     "bounds": "62 operations to fixpoint; stateless length<=3; 4! x 6! load orders"},
+                     "bounds": "63 operations to fixpoint (19 968 states); stateless length<=3; 4! x 6! load orders"},
     }],
 }
